@@ -331,6 +331,50 @@ example :
 example : pendingOf 7 true [.arrive 1 (some 7), .arrive 2 (some 7), .finish 1 7, .cancel 2 7] [] = [] := by decide
 
 
+theorem pendingOf_append (p : Nat) (block : Bool) (a b : List IOp) (acc : List Nat) :
+    pendingOf p block (a ++ b) acc = pendingOf p block b (pendingOf p block a acc) := by
+  induction a generalizing acc with
+  | nil => rfl
+  | cons op t ih =>
+    cases op with
+    | arrive r q => cases q <;> simp [pendingOf, ih]
+    | finish r q => simp [pendingOf, ih]
+    | cancel r q => simp [pendingOf, ih]
+
+/-- cancelling everything in `l` empties any accumulator whose members are all in `l` -/
+theorem pendingOf_cancel_all (p : Nat) (block : Bool) (l acc : List Nat) (h : ∀ x ∈ acc, x ∈ l) :
+    pendingOf p block (l.map (fun r => IOp.cancel r p)) acc = [] := by
+  induction l generalizing acc with
+  | nil =>
+    simp only [List.map_nil, pendingOf]
+    apply List.eq_nil_iff_forall_not_mem.mpr
+    intro x hx; exact absurd (h x hx) (by simp)
+  | cons r t ih =>
+    simp only [List.map_cons, pendingOf, if_true]
+    apply ih
+    intro x hx
+    have hm := List.mem_filter.mp hx
+    have hne : x ≠ r := by simpa using hm.2
+    rcases List.mem_cons.mp (h x hm.1) with e | e
+    · exact absurd e hne
+    · exact e
+
+/-- **When a connection goes away its slots come back.**  Whatever happened before (any history, any
+limit, either mode), once the connection handler has dropped the futures of all of the peer's requests
+that are still pending -- which is what the end of a connection does (`inflight_requests.shutdown()`,
+pinned by the translator) -- none of the peer's slots is taken and nobody waits: a peer that reconnects
+finds its full quota. -/
+theorem C18_connection_loss_frees (limit : Nat) (block : Bool) (ops : List IOp) (p : Nat) :
+    let lost := (pendingOf p block ops []).map (fun r => IOp.cancel r p)
+    (((Inflight.init limit block).run (ops ++ lost)).peers p).running = [] ∧
+    (((Inflight.init limit block).run (ops ++ lost)).peers p).waiting = [] := by
+  intro lost
+  apply C18_no_leak
+  rw [pendingOf_append]
+  exact pendingOf_cancel_all p block _ _ (fun x hx => hx)
+
+example : (((Inflight.init 1 true).run ([.arrive 1 (some 7), .arrive 2 (some 7)] ++ [.cancel 1 7, .cancel 2 7])).peers 7).running = [] := by decide
+
 /-- **The in-flight limiter the model describes is the one in the source** (read off anemo-tower on this
 run): one semaphore per sender created on first use with `max_inflight` permits; the permit is an RAII
 guard held across `inner.call(req).await` (so completion, failure and cancellation all return it);
